@@ -139,7 +139,7 @@ def run_case(case):
             raise exc_cls(f"injected at line event {i['e']} {i['func']}:{i['lineno']}")
 
         trig = inj if (inj is not None and inj[0] != 'line') else None
-        st = W.WrapStorage(LocalStorage(sd), trigger=trig, action=strike_point)
+        st = W.WrapStorage(LocalStorage(sd), trigger=trig, action=strike_point, root=sd)
         lab = labtech.Lab(storage=st, runner_backend='serial', continue_on_failure=bool(case.get('cof', True)))
         t1 = Type(idx)
         tracer = W.LineTracer(st, target=(inj[1] if (inj is not None and inj[0] == 'line') else None), action=strike_line)
